@@ -19,7 +19,7 @@ def groups(tier):
             grp(f'decode.announce.{"v3+" if pw else "v1-2"}.{half}', ['ONLY_TYPE=1', f'ONLY_POW={pw}'] + (['SAFETY_ONLY'] if half == 'safety' else []),
                 f'announce, version {">= 3" if pw else "< 3"} ({half} half)', checks=[] if half == 'verbatim' else None)
     G.append(Group('decode_signed.total', 'message', 'C13/signed.c', entry='h_decode_signed',
-                   replace=['crypto__HmacSha256__verify', 'protocol__decode'], kind='unbounded',
+                   replace=['crypto__HmacSha256__verify', 'protocol__decode', 'crypto__HmacSha256__compute', 'protocol__encode'], unwind=40, kind='unbounded',
                    clause='decode_signed: span arithmetic and memory safety for every buffer and key length; no exception'))
     return G
 
